@@ -32,6 +32,22 @@ pub fn run(ctx: &Ctx) -> i32 {
             // field no predicate addresses
             let mk = |rng: &mut Rng, side: &str, i: usize| -> DVal {
                 let mut d = if rng.chance(12) { DVal::Obj(vec![]) } else { gen::gen_doc(rng, &leaves) };
+                if rng.chance(12) {
+                    // an example written with a YAML merge key: the stored mapping has a literal
+                    // `<<` entry and none of the fields inside it (matches() sees them as absent)
+                    if let DVal::Obj(es) = &mut d {
+                        let n = es.len();
+                        let keep = if n == 0 { 0 } else { rng.below(n) };
+                        let moved: Vec<(String, DVal)> = es.drain(keep..).collect();
+                        let merged = if rng.chance(30) && moved.len() >= 2 {
+                            let (a, b) = moved.split_at(moved.len() / 2);
+                            DVal::Arr(vec![DVal::Obj(a.to_vec()), DVal::Obj(b.to_vec())])
+                        } else {
+                            DVal::Obj(moved)
+                        };
+                        es.push(("<<".to_string(), merged));
+                    }
+                }
                 d.set("__marker", DVal::Str(marker(side, i, salt)));
                 d
             };
@@ -167,7 +183,7 @@ pub fn run(ctx: &Ctx) -> i32 {
         ctx,
         rep,
         Meta {
-            rule: "generated rules with example lists of 0-3 positives and 0-3 negatives drawn from matching / non-matching / empty documents, each carrying a unique marker in a field no predicate addresses; a quarter of the rules also get non-mapping example entries; unoptimised and four optimised variants. Oracle: matches() on each example: validate() must return Ok(true) exactly when all behave, otherwise an error whose text contains the markers of exactly the failing examples; malformed entries must give an error, never a panic. non-trivial = list with at least one failing or malformed example; distinct by (pass/fail pattern, optimised?, malformed count)".into(),
+            rule: "generated rules with example lists of 0-3 positives and 0-3 negatives drawn from matching / non-matching / empty documents, each carrying a unique marker in a field no predicate addresses; a quarter of the rules also get non-mapping example entries; one example in eight keeps part of its fields under a literal `<<` (merge-key) entry; unoptimised and four optimised variants. Oracle: matches() on each example: validate() must return Ok(true) exactly when all behave, otherwise an error whose text contains the markers of exactly the failing examples; malformed entries must give an error, never a panic. non-trivial = list with at least one failing or malformed example; distinct by (pass/fail pattern, optimised?, malformed count)".into(),
             exhaustive: false,
             assumptions: vec!["'names each failing example' is checked through unique marker values, independent of the error's format".into()],
             min_nontrivial: 30,
